@@ -165,7 +165,7 @@ impl QueryNode {
                 self.engine.extract_column_predicates(sql).await,
             ) {
                 (Ok(time_range), Ok(predicates)) => (time_range, predicates),
-                (Err(e), _) | (_, Err(e)) if is_table_not_found_error(&e) => {
+                (Err(e), _) | (_, Err(e)) if needs_table_bootstrap(&e) => {
                     let bootstrap_chunks = self.metadata.list_chunks().await?;
                     let bootstrap_paths: Vec<String> = bootstrap_chunks
                         .iter()
@@ -298,11 +298,20 @@ impl QueryNode {
     }
 }
 
-fn is_table_not_found_error(error: &Error) -> bool {
+/// Planning can fail only because `metrics` is not bound to real chunks yet: the table is
+/// missing, or it is still the empty start-up table with the built-in default schema, which
+/// lacks the data's own columns and may have another timestamp type. Binding it to the
+/// known chunks and planning again settles both; a genuinely invalid statement fails again.
+fn needs_table_bootstrap(error: &Error) -> bool {
     match error {
         Error::DataFusion(df_error) => {
             let msg = df_error.to_string().to_lowercase();
-            msg.contains("table") && msg.contains("not found")
+            (msg.contains("table") && msg.contains("not found"))
+                || matches!(
+                    df_error.find_root(),
+                    datafusion::error::DataFusionError::SchemaError(_, _)
+                        | datafusion::error::DataFusionError::Plan(_)
+                )
         }
         _ => false,
     }
